@@ -26,6 +26,7 @@ META = {
 }
 GROUP = "typeinfer"
 HGROUP = "shapeinfer"          # the harness crate is shared with C10 (one build of rten)
+HARNESS_GROUPS = [HGROUP]
 REQ = ("From Coq Require Import String.\nFrom RV Require Import Prelude.\n"
        "From TypeInfer Require Import TypeInferModel OpTypeRules.\n"
        "Definition agree := TypeInferModel.agree op_type_rules.\n"
@@ -55,6 +56,19 @@ def write_table(ctx, bindir, lines):
     return rows
 
 
+def gen_lines(ctx, bindir):
+    rc, out = vf.sh([os.path.join(bindir, "c12"), "gen", str(ctx.seed), str(ctx.n(300, 1500)), ctx.tier], timeout=900)
+    if rc != 0:
+        raise vf.CheckerBroken("c12 gen failed: " + out[-500:])
+    return [l for l in out.split("\n") if l.strip()]
+
+
+def setup_hook(ctx):
+    """./setup: the generated table must exist before the Coq group is built."""
+    bindir = ctx.harness(HGROUP, profile="release", bins=["c12"])
+    write_table(ctx, bindir, gen_lines(ctx, bindir))
+
+
 def main(ctx):
     ctx.rule = ("operator instances: the C10 case generators (all operators with table entries, random attributes) plus a fixed list "
                 "of type-changing instances (Cast to every dtype, ConstantOfShape/EyeLike per value dtype, comparisons, Shape, Size, "
@@ -71,13 +85,7 @@ def main(ctx):
     ctx.audit(GROUP)
     bindir = ctx.harness(HGROUP, profile="release", bins=["c12"])
     replay = ctx.replay_inputs()
-    if replay:
-        lines = replay
-    else:
-        rc, out = vf.sh([os.path.join(bindir, "c12"), "gen", str(ctx.seed), str(ctx.n(300, 1500)), ctx.tier], timeout=900)
-        if rc != 0:
-            raise vf.CheckerBroken("c12 gen failed: " + out[-500:])
-        lines = [l for l in out.split("\n") if l.strip()]
+    lines = replay if replay else gen_lines(ctx, bindir)
     rows = write_table(ctx, bindir, lines)
     ctx.pins_rec.append({"name": "op_type_rules", "file": "src/ops/* (Operator::output_types, dumped through the hook)",
                          "text": "%d operator instances of %d operators" % (len(rows), len({r[3] for r in rows}))})
